@@ -694,4 +694,96 @@ class ZipRequestHistories(object):
         finally:
             shutil.rmtree(root, ignore_errors=True)
 
-FAMILIES = [Names(), Decoys(), Contents(), ZipShapes(), Urls(), ZipRequestHistories()]
+class ReaderHistories(object):
+    name = 'directory-request-histories'
+    describe = ('ONE FileReader asked again after the directory changed: an .index written / rewritten / removed between two requests, '
+                'a file added; a first variant that cannot be read (larger than the reader accepts) next to a readable one; ONE strict '
+                'ZipReader over a file that is no archive asked twice: every answer is what a fresh reader gives at that moment, '
+                'errors are the package\'s and do not grow from request to request')
+
+    SCRIPTS = ['index-appears', 'index-rewritten', 'index-removed', 'file-appears', 'oversize-first-variant', 'oversize-only',
+               'strict-zip-asked-twice']
+
+    def blocks(self, tier):
+        return [{}]
+
+    def cases(self, block, tier):
+        for sc in self.SCRIPTS:
+            yield {'script': sc}
+
+    def run_case(self, case):
+        from pysmi.reader.localfile import FileReader
+        from pysmi.reader.zipreader import ZipReader
+        root = scratch()
+        sc = case['script']
+        vs = []
+        sig = 'C14|directory-histories|%s' % sc
+
+        def w(name, data):
+            with open(os.path.join(root, name), 'w') as f:
+                f.write(data)
+
+        def both(reader, label):
+            got, fresh = ask(reader, 'FOO-MIB'), ask(FileReader(root), 'FOO-MIB')
+            if got[:2] != fresh[:2]:
+                vs.append(('%s|%s|differs-from-a-fresh-reader' % (sig, label), 'used reader %r, fresh reader %r' % (got[:2], fresh[:2])))
+            return got
+
+        try:
+            if sc == 'strict-zip-asked-twice':
+                w('bad.zip', 'this is no archive')
+                r = ZipReader(os.path.join(root, 'bad.zip'), ignoreErrors=False)
+                seen = []
+                for i in range(3):
+                    try:
+                        r.getData('FOO-MIB' if i != 1 else 'BAR-MIB')
+                        seen.append(('returned',))
+                    except error.PySmiError as exc:
+                        exc.msg += ' at MIB X'       # what compile() does with the errors it catches
+                        seen.append((type(exc).__name__, str(exc)[:300], id(exc)))
+                    except Exception as exc:
+                        seen.append(('foreign', type(exc).__name__))
+                if any(x[0] in ('returned', 'foreign') for x in seen):
+                    vs.append(('%s|not-a-package-error' % sig, repr(seen)))
+                elif len(set(x[1] for x in seen)) != 1:
+                    vs.append(('%s|error-text-changes-from-request-to-request' % sig, repr([x[1] for x in seen])))
+                return repr([x[:2] for x in seen])[:200], vs, 3
+            r = FileReader(root)
+            if sc.startswith('oversize'):
+                r.maxMibSize = 64
+                w('FOO-MIB.txt', '-- ' + 'x' * 200 + '\n')      # tried first, refused ("too large"): an I/O failure
+                if sc == 'oversize-first-variant':
+                    w('FOO-MIB.mib', 'second variant')
+                got = ask(r, 'FOO-MIB')
+                want = ('found', 'second variant') if sc == 'oversize-first-variant' else ('not-found',)
+                if got[:2] != want and got[0] != 'error':
+                    vs.append(('%s|answered-%s' % (sig, got[0]), '%r, expected %r (or a reader error)' % (got[:2], want)))
+                if got[0] == 'error' and got[1] == 'PySmiReaderFileNotModifiedError':
+                    vs.append(('%s|not-modified-error-without-any-time-compared' % sig, repr(got)))
+                return repr(got[:2]), vs, 1
+            w('first.dat', 'via first')
+            w('second.dat', 'via second')
+            if sc == 'index-appears':
+                both(r, 'before')
+                w('.index', 'FOO-MIB first.dat\n')
+                both(r, 'after')
+            elif sc == 'index-rewritten':
+                w('.index', 'FOO-MIB first.dat\n')
+                both(r, 'before')
+                w('.index', 'FOO-MIB second.dat\n')
+                both(r, 'after')
+            elif sc == 'index-removed':
+                w('.index', 'FOO-MIB first.dat\n')
+                both(r, 'before')
+                os.unlink(os.path.join(root, '.index'))
+                both(r, 'after')
+            else:
+                both(r, 'before')
+                w('FOO-MIB.txt', 'a file')
+                both(r, 'after')
+            return 'ok' if not vs else 'bad', vs, 2
+        finally:
+            shutil.rmtree(root, ignore_errors=True)
+
+
+FAMILIES = [Names(), Decoys(), Contents(), ZipShapes(), Urls(), ZipRequestHistories(), ReaderHistories()]
